@@ -395,9 +395,11 @@ class SpaceImpl:
         groups.sort(key=lambda g: (g[0], g[1]))
         return groups
 
-    def draw(self, component=False):
+    def draw(self, component=False, default=False):
         m = L()
         snap = self.snapshot()
+        if default:
+            snap = [(v, loc, {}) for v, loc, _ in snap]  # the component's own portrayal: {}
         ax = m["Figure"]().add_subplot()
         with warnings.catch_warnings():
             warnings.simplefilter("ignore")
@@ -405,7 +407,7 @@ class SpaceImpl:
                 if component:
                     # the solara component builds its own Figure; post_process receives the Axes
                     got = []
-                    comp = m["make_mpl_space_component"](self.portrayal, post_process=got.append)
+                    comp = m["make_mpl_space_component"](None if default else self.portrayal, post_process=got.append)
                     m["solara"].render(comp(self.model), handle_error=False)
                     ax = got[0]
                 else:
@@ -418,15 +420,20 @@ class SpaceImpl:
         return "ok" + "".join(
             f" | {mk} {z} n={len(mem)}" + "".join(" " + ",".join(t) for t in mem) for mk, z, mem in groups)
 
-    def altair(self, component=False):
+    def altair(self, component=False, default=False):
         m = L()
         snap = self.snapshot()
+        if default:
+            # the component's own portrayal: {"id": unique_id}; the harness knows the agents by their vid
+            uid = {ag.unique_id: vid for vid, ag in self.agents.items()}
+            snap = [(v, loc, {"id": v}) for v, loc, _ in snap]
         with warnings.catch_warnings():
             warnings.simplefilter("ignore")
             try:
                 if component:
                     got = []
-                    comp = m["make_altair_space"](self.portrayal, None, post_process=lambda ch: (got.append(ch), ch)[1])
+                    comp = m["make_altair_space"](None if default else self.portrayal, None,
+                                                  post_process=lambda ch: (got.append(ch), ch)[1])
                     m["solara"].render(comp(self.model), handle_error=False)
                     chart = got[0]
                 else:
@@ -436,9 +443,20 @@ class SpaceImpl:
                 self.trace.append(("altair", snap, None, exc_tok(e) + ": " + str(e)[:80], self.heap_before, self.heap_now()))
                 return exc_tok(e)
         rows = d["data"]["values"]
-        enc = [k for k in ("color", "size") if k in d.get("encoding", {})]
-        self.trace.append(("altair", snap, rows, None, self.heap_before, self.heap_now()))
-        return f"ok enc={or_dash('+'.join(enc))}" + "".join(" | " + or_dash(fmt_dict(r)) for r in rows)
+        if default:
+            rows = [{**r, "id": uid.get(r.get("id"), "?")} for r in rows]
+        encoding = d.get("encoding", {})
+        enc = [k for k in ("color", "size") if k in encoding]
+        xy = {encoding.get(k, {}).get("type", "?") for k in ("x", "y")}
+        xy = xy.pop() if len(xy) == 1 else "?"
+        tip = [t.get("field", "?") for t in encoding.get("tooltip", [])]
+        mark = d.get("mark", {})
+        mtok = self.frac_tok(mark["size"], 100) if isinstance(mark, dict) and "size" in mark else "-"
+        chart_facts = {"enc": enc, "xy": xy, "tip": tip, "mark": mtok, "type": mark.get("type") if isinstance(mark, dict) else mark,
+                       "filled": mark.get("filled") if isinstance(mark, dict) else None, "w": d.get("width"), "h": d.get("height")}
+        self.trace.append(("altair", snap, rows, None, chart_facts, self.heap_before, self.heap_now()))
+        return (f"ok enc={or_dash('+'.join(enc))} xy={xy} tip={or_dash('+'.join(tip))} mark={mtok}"
+                + "".join(" | " + or_dash(fmt_dict(r)) for r in rows))
 
     def heap_now(self):
         return [dict(d) for d in self.heap]
@@ -663,6 +681,10 @@ class SpaceImpl:
             return self.altair()
         if k == "altairc":
             return self.altair(component=True)
+        if k == "altairc0":
+            return self.altair(component=True, default=True)
+        if k == "drawc0":
+            return self.draw(component=True, default=True)
         if k == "heap":
             return self.heap_line()
         if k == "layer":
@@ -905,8 +927,10 @@ def gen_space(R, tier):
             return "drawc"  # through the solara component (renders a PNG: slow, so rare)
         if k < 0.88:
             return "altair"
-        if k < 0.94:
+        if k < 0.93:
             return "altairc"
+        if k < 0.95:
+            return R.choice(["altairc0", "drawc0"])
         return "heap"
 
     def set_portray(vid):
@@ -1199,15 +1223,29 @@ def oracle(sc, obs):
             if len(set(keys)) != len(keys):
                 bad.append(f"draw-group-twice: a (marker, zorder) pair is scattered twice: {keys}")
         elif kind == "altair":
-            _, snap, rows, err, _hb, _ha = ev
-            if err is not None:
+            if ev[3] is not None:
+                _, snap, rows, err, _hb, _ha = ev
                 if fam in ALTAIR_OK:
                     bad.append(f"altair-raised: _draw_grid raised {err} with {len(snap)} agents in the space")
                 continue
+            _, snap, rows, err, facts, _hb, _ha = ev
             want = sorted(fmt_dict({**d, "x": loc[0], "y": loc[1]}) for _, loc, d in snap)
             got = sorted(fmt_dict(r) for r in rows)
             if got != want:
                 bad.append(f"altair-one-row-per-agent: rows {got} but the agents in the space demand {want}")
+            # a channel the chart encodes must be a field of the rows; if every agent is portrayed with a colour / a size
+            # the chart must use it; marks are filled points; without sizes from the rows the marks get a default size
+            for ch in ("color", "size"):
+                if ch in facts["enc"] and not any(ch in r for r in rows):
+                    bad.append(f"altair-encoding: the chart encodes {ch}, no row has it")
+                if rows and all(ch in d for _, _, d in snap) and ch not in facts["enc"]:
+                    bad.append(f"altair-encoding: every agent is portrayed with a {ch}, the chart does not encode it")
+            if ("size" in facts["enc"]) == (facts["mark"] != "-"):
+                bad.append(f"altair-mark-size: size encoded: {'size' in facts['enc']}, default mark size {facts['mark']}")
+            if facts["type"] != "point" or facts["filled"] is not True:
+                bad.append(f"altair-mark: marks are {facts['type']} filled={facts['filled']}")
+            if any(t in ("x", "y", "color", "size") or not any(t in r for r in rows) for t in facts["tip"]):
+                bad.append(f"altair-tooltip: tooltip fields {facts['tip']} for rows {rows}")
         elif kind == "layer-mutated":
             bad.append(f"layer-mutated: drawing the property layer changed the model's layer values from {ev[1]} to {ev[2]}")
         elif kind == "layers":
